@@ -399,6 +399,8 @@ def bits_len(x, signed=None):
 def min_pow2(x, n_frac=0):
     _pow = 1
     x = np.array(x)
+    if x.dtype != object and x.dtype.kind in 'iu':
+        x = x.astype(object)    # (2**_pow reaches 2**63 for an int64 code with 62 trailing zero bits: Python integers)
 
     if np.any(x != 0):
         while not np.any(x % 2**_pow):
